@@ -32,6 +32,7 @@ import (
 	"github.com/dapr/kit/crypto/pem"
 	"github.com/dapr/kit/crypto/spiffe/trustanchors"
 	"github.com/dapr/kit/logger"
+	"github.com/dapr/kit/verifhook"
 )
 
 type (
@@ -96,12 +97,14 @@ func (s *SPIFFE) Run(ctx context.Context) error {
 	initialCert, err := s.fetchIdentityCertificate(ctx)
 	if err != nil {
 		close(s.readyCh)
+		verifhook.Point("spiffe.run.afterCloseReady")
 		s.lock.Unlock()
 		return fmt.Errorf("failed to retrieve the initial identity certificate: %w", err)
 	}
 
 	s.currentSVID = initialCert
 	close(s.readyCh)
+	verifhook.Point("spiffe.run.afterCloseReady")
 	s.lock.Unlock()
 
 	s.log.Infof("Security is initialized successfully")
